@@ -1,16 +1,9 @@
 /-
 Helper lemmas about the sorted per-type index (`Model/Index.lean`).
 -/
-import CassisModel.Model.Index
+import CassisModel.Spec.Index
 
 namespace Cassis.Index
-
-/-- the list is sorted by key `(b, e, oid)` -/
-def Sorted (l : List Entry) : Prop := l.Pairwise (fun x y => keyLe x y = true)
-
-/-- weaker: sorted by `(b, e)` only (what `select` promises per concrete type) -/
-def beLeE (x y : Entry) : Bool := x.b < y.b || (x.b == y.b && x.e ≤ y.e)
-def SortedBE (l : List Entry) : Prop := l.Pairwise (fun x y => beLeE x y = true)
 
 theorem keyLe_beLeE {x y : Entry} (h : keyLe x y = true) : beLeE x y = true := by
   simp only [keyLe, beLeE, Bool.or_eq_true, Bool.and_eq_true, decide_eq_true_eq, beq_iff_eq] at *
